@@ -135,7 +135,7 @@ def failures(pid, inst, res):
 
 def run_one(args):
     d, k, inst = args
-    res = solve.run_solve(d, "c%d" % k, inst)
+    res = solve.run_solve(d, "c%d" % k, inst, pipemodel=True)
     res["inst"] = inst
     res["k"] = k
     return res
